@@ -196,10 +196,19 @@ def u32 (n : Nat) : UInt32 := UInt32.ofNat n
 /-- `uint32(n - 1)` for a Go `int` `n ≥ 0` (for `n = 0` this is `0xFFFFFFFF`, as in Go). -/
 def u32pred (n : Nat) : UInt32 := UInt32.ofNat n - 1
 
+/-- A token found inside a comment, before it is given a line and column:
+    byte offset in the comment text, byte length, token type. -/
+structure TagSpan where
+  off : Nat
+  len : Nat
+  ty : UInt32
+deriving Repr, DecidableEq, Inhabited
+
 /-- One iteration of the `for _, part := range parts` loop of `extractTagTokensFromComment`.
-    State: `searchStart` and the tokens appended so far. -/
-def extractStep (cls : Classes) (comment : Bytes) (baseLine baseCol : UInt32)
-    (st : Nat × List SemToken) (part : Bytes) : Nat × List SemToken :=
+    State: `searchStart` and the tokens appended so far (as spans: the Go code computes
+    `col = baseCol + 1 + uint32(off)`, `length = uint32(len)` from exactly these numbers). -/
+def extractStep (cls : Classes) (comment : Bytes) (st : Nat × List TagSpan) (part : Bytes) :
+    Nat × List TagSpan :=
   let searchStart := st.1
   let trimmed := trimSpace part
   match indexOf [colon] trimmed with
@@ -211,8 +220,7 @@ def extractStep (cls : Classes) (comment : Bytes) (baseLine baseCol : UInt32)
     | none => st
     | some ts =>
       let tagStart := ts + searchStart
-      let acc := st.2 ++ [{ line := baseLine, col := baseCol + 1 + u32 tagStart,
-                            len := u32 (name.length + 1), ty := tyTag, mods := 0 }]
+      let acc := st.2 ++ [{ off := tagStart, len := name.length + 1, ty := tyTag }]
       let tagNameEnd := tagStart + name.length + 1
       let value := if colonIdx + 1 < trimmed.length then trimSpace (trimmed.drop (colonIdx + 1)) else []
       if value.isEmpty then (tagNameEnd, acc) else
@@ -220,14 +228,20 @@ def extractStep (cls : Classes) (comment : Bytes) (baseLine baseCol : UInt32)
       | none => (tagNameEnd, acc)
       | some vs =>
         (tagNameEnd + vs + value.length,
-         acc ++ [{ line := baseLine, col := baseCol + 1 + u32 (tagNameEnd + vs),
-                   len := u32 value.length, ty := tyTagValue, mods := 0 }])
+         acc ++ [{ off := tagNameEnd + vs, len := value.length, ty := tyTagValue }])
+
+/-- The spans `extractTagTokensFromComment` finds in a comment text. -/
+def extractSpans (cls : Classes) (comment : Bytes) : List TagSpan :=
+  if !comment.contains colon then [] else
+  ((splitOn comma comment).foldl (extractStep cls comment) (0, [])).2
+
+/-- `semanticToken{line: baseLine, col: baseCol + 1 + uint32(off), length: uint32(len), …}`. -/
+def tagToken (baseLine baseCol : UInt32) (sp : TagSpan) : SemToken :=
+  { line := baseLine, col := baseCol + 1 + u32 sp.off, len := u32 sp.len, ty := sp.ty, mods := 0 }
 
 /-- `extractTagTokensFromComment` (`[]` for nil). -/
 def extractTags (cls : Classes) (t : Token) : List SemToken :=
-  if !t.val.contains colon then [] else
-  ((splitOn comma t.val).foldl
-    (extractStep cls t.val (u32pred t.pos.line) (u32pred t.pos.col)) (0, [])).2
+  (extractSpans cls t.val).map (tagToken (u32pred t.pos.line) (u32pred t.pos.col))
 
 /-- The loop-carried variables of `tokenizeForSemantics`. -/
 structure Ctx where
